@@ -134,7 +134,8 @@ def check(ctx, run):
                 problems.append("payoff is not realised variance minus strike")
         if fn == "european_forward_start_payoff":
             st = calls[0]["kwargs"].get("start_index") if calls else None
-            if not (isinstance(st, Op) and st.op == "py_floor" and str(st.args[0]) == "div(deriv.start, deriv.ul.dt)"):
+            from .c13 import strip_guard
+            if not (isinstance(st, Op) and st.op == "py_floor" and str(strip_guard(st.args[0])) == "div(deriv.start, deriv.ul.dt)"):
                 problems.append(f"start_index is {st}, expected floor(start/dt)")
             if calls and calls[0]["kwargs"].get("end_index", -1) != -1:
                 problems.append("end_index overridden")
